@@ -1570,6 +1570,7 @@ func runC20(r *harness.Run) {
 	r.Extra["traces_validated_against_impl"] = transitions
 	r.Extra["transitions_with_judged_outcome"] = judged
 	runPinned(r, "C20")
+	requireHistories(r)
 }
 
 // ---- replay -----------------------------------------------------------------------------------
